@@ -9,6 +9,10 @@ def nontrivial(b):
     return any(o["op"] == "send" and any(s["k"] == "R" for s in o.get("slots", [])) for o in ops)
 
 
+def no_big_sends(b):
+    return not any(o["op"] in ("send", "probe") and o.get("big") for o in b["ops"])
+
+
 def plans(tier):
     if tier == "quick":
         return [
@@ -28,7 +32,9 @@ def plans(tier):
         {"name": "sim-process", "variant": "os", "mode": "process",
          "gen": dict(failsends=True, agents=(0, 1), maxch=5, maxreg=1, maxslots=2, maxops=50, minops=20, maxqueue=4,
                      kinds=("typed", "bytes"), simulate=200, depth=300, tlcseed=chancheck.seed())},
-        {"name": "sim-thread-sysbuf", "variant": "os", "mode": "thread", "sb": None,
+        # with the system's own buffer size a "big" (multi-packet) message is larger than what the kernel queues without a
+        # reader, and a thread that sends one to a receiver nobody is reading blocks by design: small messages only
+        {"name": "sim-thread-sysbuf", "variant": "os", "mode": "thread", "sb": None, "filter": no_big_sends,
          "gen": dict(failsends=True, agents=(0, 1), maxch=4, maxreg=1, maxslots=2, maxops=30, minops=12, maxqueue=3,
                      kinds=("typed", "bytes"), simulate=40, depth=200, tlcseed=chancheck.seed() + 1)},
         {"name": "sim-inprocess", "variant": "inprocess", "mode": "thread",
